@@ -9,7 +9,11 @@
   key tokens     k<hex bytes>
   steps          put/<key>/<val>  del/<key>  def/<key>/<val|->/<w>/<e>/<c> (w,e,c ∈ 0 1 -)
                  frz  seal  noext  new/<val>
-                 call/<method>/<args,…>/<callback returns,…>
+                 call/<method>/<args,…>/<callback returns,…>[/<script>]
+  methods        push pop shift unshift slice splice indexOf lastIndexOf reverse join concat every some forEach map filter
+                 reduce reduceRight sort sortNum sortInf toString toLocaleString (`name!` = non-callable first argument)
+  objects        O<id>: 1…49 scripted (valueOf/toString/toLocaleString play the script; 7: toLocaleString not callable),
+                 50…59 nested arrays [O(10+k), k, null, O(20+k)]
 -/
 import OttoVerif.Base.Proto
 import OttoVerif.Base.ParseNumber
@@ -213,6 +217,7 @@ def modelMethod (ps : List (Nat × Val)) (name : String) (argTok : String) : Opt
     | "reduce" => some (reduce O callable args)
     | "reduceRight" => some (reduceRight O callable args)
     | "toString" => some (toStringM O env args)
+    | "toLocaleString" => some (toLocaleStringM O env args)
     | "sort" => some (sort O env true none)
     | "sortNum" => some (sort O env true (some numCmpModel))
     | "sortInf" => some (sort O env true (some infCmpSpec))        -- toIntSign(±Infinity) = ±1
@@ -244,6 +249,7 @@ def specMethod (ps : List (Nat × Val)) (name : String) (argTok : String) : Opti
     | "reduce" => some (Spec.reduce O callable args)
     | "reduceRight" => some (Spec.reduceRight O callable args)
     | "toString" => some (Spec.toStringS O env args)
+    | "toLocaleString" => some (Spec.toLocaleStringS O env args)
     | "sort" => some (Spec.sort O env true none)
     | "sortNum" => some (Spec.sort O env true (some numCmpSpec))
     | "sortInf" => some (Spec.sort O env true (some infCmpSpec))
